@@ -1,6 +1,7 @@
 package main
 
 import (
+	"verifharness/internal/sysh"
 	"fmt"
 	"strings"
 
@@ -236,6 +237,54 @@ func c08(c *ctx) {
 		c08PDR(c, "app", iface, ue, nil, &app, table, order)
 	}
 	c.extra["pdr_level_cases"] = nPDR
+	c08system(c)
+}
+
+// c08system: PFD provisioning on a running agent — an accepted PFD Management Request replaces the application table of
+// the association, a refused one leaves it exactly as it was; PDRs naming an application get its filter.
+func c08system(c *ctx) {
+	r := c.rng
+	for rep := 0; rep < c.pick(3, 30); rep++ {
+		w, err := newWorld(c, sysh.Opts{ReadTimeout: 600})
+		if err != nil {
+			panic(err)
+		}
+		w.cfgLine()
+		if !w.start() {
+			w.close()
+			return
+		}
+		w.assoc(0)
+		w.assoc(1)
+		tables := [][]appPFD{
+			{{ID: "app0", Fds: []string{"permit out ip from 8.8.4.0/24 to assigned"}}, {ID: "app1", Fds: []string{"permit in udp from any to 1.1.1.1 53", "permit out tcp from 9.9.9.9 443 to assigned"}}},
+			{{ID: "app2", Fds: []string{"permit out udp from 10.20.0.0/16 53 to assigned"}}},
+			{{ID: "app0", Fds: []string{"permit out tcp from 93.184.216.34 80 to assigned"}}},
+		}
+		use := func(a int) {
+			for _, id := range []string{"app0", "app1", "app2", "app9"} {
+				if r.Intn(3) == 0 {
+					continue
+				}
+				pdrs, fars, qers := w.genSession(0)
+				pdrs[1].App = strp(id)
+				w.nextCP++
+				if h, _ := w.est(a, w.nodes[a], w.nextCP, pdrs, fars, qers, "pfd-"+id); h != nil && r.Intn(2) == 0 {
+					w.del(a, h.up, "pfd")
+				}
+			}
+		}
+		use(0) // nothing provisioned yet
+		for step := 0; step < c.pick(6, 14); step++ {
+			a := r.Intn(2)
+			w.pfd(a, tables[r.Intn(len(tables))], r.Intn(3) == 0)
+			use(a)
+			if r.Intn(3) == 0 {
+				use(1 - a) // the other association has its own table
+			}
+		}
+		w.close()
+	}
 }
 
 func containsTok(t []string, s string) bool {
